@@ -542,6 +542,45 @@ class Facts:
         return Poly(out)
 
 
+class OrderFacts:
+    """A (weak) ordering of finitely many symbolic points: every bracket comparing two of them is decided.
+    Values that a piece of code touches only through comparisons have finitely many orderings; a property over
+    all such values is decided by enumerating them."""
+
+    def __init__(self, points, ranks):
+        self.points, self.ranks = list(points), list(ranks)
+        self.val = {}
+        n = len(self.points)
+        for i in range(n):
+            for j in range(n):
+                if i == j:
+                    continue
+                a, b = self.points[i], self.points[j]
+                for q, truth in ((mk_ind('<0', a - b), self.ranks[i] < self.ranks[j]), (mk_ind('==0', a - b), self.ranks[i] == self.ranks[j])):
+                    if q.is_monomial():
+                        (m, c), = q.t.items()
+                        if c == 1 and len(m) == 1 and m[0][1] == 1 and m[0][0][0] == 'ind':
+                            self.val[m[0][0]] = 1 if truth else 0
+
+    def simplify(self, p):
+        return rebuild(p, lambda a: Poly.const(self.val[a]) if a in self.val else None)
+
+
+def weak_orderings(n):
+    """all rank vectors of n items (ordered set partitions), ranks normalised to 0..k-1"""
+    out = set()
+
+    def rec(prefix):
+        if len(prefix) == n:
+            order = sorted(set(prefix))
+            out.add(tuple(order.index(x) for x in prefix))
+            return
+        for r in range(n):
+            rec(prefix + [r])
+    rec([])
+    return sorted(out)
+
+
 def lt(a, b):
     return mk_ind('<0', _coerce(a) - _coerce(b))
 
@@ -666,35 +705,45 @@ def shift_index(p, label, k):
     return go(p)
 
 
-def rebuild(p, f, post=None):
+def rebuild(p, f, post=None, _memo=None):
     """Rebuild ``p`` bottom-up; ``f(atom)`` returns a Poly to replace a (rebuilt) atom or None;
-    ``post`` (Poly -> Poly) is applied to every rebuilt polynomial, nested ones included."""
+    ``post`` (Poly -> Poly) is applied to every rebuilt polynomial, nested ones included.
+    Atoms and nested polynomials are rebuilt once per call (memoised)."""
+    memo = {} if _memo is None else _memo
+    k = ('p', p.key())
+    if k in memo:
+        return memo[k]
     out = Poly()
     for m, c in p.t.items():
         term = Poly.const(c)
         for a, e in m:
-            term = term * _rebuild_atom(a, f, post).pow(e)
+            term = term * _rebuild_atom(a, f, post, memo).pow(e)
         out = out + term
-    return post(out) if post else out
+    if post:
+        out = post(out)
+    memo[k] = out
+    return out
 
 
-def _rebuild_atom(a, f, post=None):
+def _rebuild_atom(a, f, post=None, memo=None):
+    if memo is not None and a in memo:
+        return memo[a]
     k = a[0]
     if k == 'sym':
         new = Poly.atom(a)
     elif k == 'sum':
-        new = sum_over(rebuild(Poly.from_key(a[2]), f, post), a[1])
+        new = sum_over(rebuild(Poly.from_key(a[2]), f, post, memo), a[1])
     elif k == 'pow':
-        new = rebuild(Poly.from_key(a[1]), f, post).pow(a[2])
+        new = rebuild(Poly.from_key(a[1]), f, post, memo).pow(a[2])
     elif k == 'ind':
-        new = mk_ind(a[1], rebuild(Poly.from_key(a[2]), f, post))
+        new = mk_ind(a[1], rebuild(Poly.from_key(a[2]), f, post, memo))
     elif k == 'fn':
         args = []
         for x in a[2:]:
             if x[0] == 'P':
-                args.append(P(rebuild(Poly.from_key(x[1]), f, post)))
+                args.append(P(rebuild(Poly.from_key(x[1]), f, post, memo)))
             elif x[0] == 'B':
-                args.append(B(x[1], rebuild(Poly.from_key(x[2]), f, post)))
+                args.append(B(x[1], rebuild(Poly.from_key(x[2]), f, post, memo)))
             else:
                 args.append(x)
         new = mk_fn(a[1], *args)
@@ -705,7 +754,9 @@ def _rebuild_atom(a, f, post=None):
         if c == 1 and len(m) == 1 and m[0][1] == 1:
             r = f(m[0][0])
             if r is not None:
-                return r
+                new = r
+    if memo is not None:
+        memo[a] = new
     return new
 
 
